@@ -257,6 +257,22 @@ impl World {
             Some(b'4' | b'5') => { cmd.env("VERIF_CLOCK_STEP_NS", "60000000000"); }
             _ => {}
         }
+        // environment noise, a function of the hash-seed draw too: variables a build tool or a user's shell may or may not set;
+        // nothing logos-cli writes may depend on them
+        {
+            let h = plan.hash_seed.as_bytes();
+            let pick = |i: usize, n: usize| h.get(i).map(|b| (*b as usize) % n).unwrap_or(0);
+            cmd.env("HOME", ["/root", "/home/u", "/nonexistent", "/tmp/h"][pick(0, 4)]);
+            cmd.env("USER", ["root", "u", "builder"][pick(1, 3)]);
+            cmd.env("LANG", ["C", "en_US.UTF-8", "de_DE.UTF-8", "tr_TR.UTF-8"][pick(2, 4)]);
+            cmd.env("LC_ALL", ["C", "en_US.UTF-8", "tr_TR.UTF-8"][pick(3, 3)]);
+            cmd.env("TZ", ["UTC", "Asia/Tokyo", "America/Los_Angeles"][pick(4, 3)]);
+            if pick(5, 2) == 1 { cmd.env("CARGO_PKG_NAME", "some-crate").env("CARGO_MANIFEST_DIR", "/work/some-crate").env("OUT_DIR", "/work/target/out"); }
+            if pick(6, 2) == 1 { cmd.env("SOURCE_DATE_EPOCH", "1700000000"); }
+            if pick(7, 3) == 1 { cmd.env("RUST_BACKTRACE", "1"); }
+            if pick(8, 3) == 1 { cmd.env("NO_COLOR", "1").env("TERM", "dumb"); } else { cmd.env("TERM", "xterm-256color"); }
+            if pick(9, 4) == 1 { cmd.env("LOGOS_DEBUG", "1").env("RUST_LOG", "debug"); }
+        }
         cmd.env("VERIF_RUSTFMT_MODE", &plan.rustfmt);
         if !plan.rules.is_empty() {
             cmd.env("VERIF_PLAN", plan.rules.join(","));
